@@ -458,3 +458,46 @@ func H14a_req_t()   { h14a(3, 2, 3, true, false) }
 func H14a_d1() { h14a(1, 1, 1, false, false) }
 func H14a_d2() { h14a(1, 2, 2, false, false) }
 func H14a_d3() { h14a(2, 2, 2, false, false) }
+
+// H14u: flushing an unfinished message is idempotent. The HTTP/2 connection tracer flushes a stream's request
+// tracer when the request side ends and again when the stream is closed: the partial event must be reported
+// once, and bytes traced afterwards start a fresh message.
+func H14u_q() {
+	isRequest := vBool("isRequest")
+	col := &vCollector{}
+	bld := &builder{collector: col, trace: Trace{TestName: "t"}}
+	d := &dataTracer{isRequest: isRequest, isStreamProtocol: true, builder: bld}
+	// one message of 2 payload bytes, of which the first `limit` bytes (0..7) are seen, in one or two pieces
+	stream := []byte{vByte("flags"), 0, 0, 0, 2, vByte("p0"), vByte("p1")}
+	limit := vInt("limit", 0, 7)
+	cut := vInt("cut", 0, 7)
+	vSkipCase(cut > limit) // limit and cut are case-split dimensions (concrete in each engine run)
+	d.trace(stream[:cut])
+	d.trace(stream[cut:limit])
+	before := len(bld.trace.Events)
+	d.emitUnfinished()
+	after1 := len(bld.trace.Events)
+	d.emitUnfinished()
+	after2 := len(bld.trace.Events)
+	wantPartial := 0
+	if limit > 0 && limit < 7 {
+		wantPartial = 1
+	}
+	vAssert(after1-before == wantPartial, "a body cut inside a prefix or a payload yields one final partial event; a body cut at a message boundary none")
+	vAssert(after2 == after1, "flushing again reports nothing: the partial event is a single one")
+	// a new message traced after the flush is cut afresh
+	d.trace([]byte{0, 0, 0, 0, 1, 9})
+	evs := bld.trace.Events
+	vAssert(len(evs) == after2+1, "a message traced after the flush yields exactly its own event")
+	if len(evs) == after2+1 {
+		var env *Envelope
+		var n uint64
+		switch ev := evs[after2].(type) {
+		case *RequestBodyData:
+			env, n = ev.Envelope, ev.Len
+		case *ResponseBodyData:
+			env, n = ev.Envelope, ev.Len
+		}
+		vAssert(env != nil && env.Len == 1 && env.Flags == 0 && n == 1, "the message after the flush is reported with its own prefix and length")
+	}
+}
